@@ -340,7 +340,7 @@ Definition impl_build (s : sdl) : build_result :=
   | inr k => Rejected k
   | inl g0 =>
       match validate_extensions g0 (s_exts s) with
-      | _ :: _ as errs => Rejected errs
+      | (_ :: _) as errs => Rejected errs
       | [] =>
           let g := fold_left apply_ext (s_exts s) g0 in
           match validate g with
